@@ -152,22 +152,31 @@ CLAIMED = {
         note=NOTE_COMMON + "Non-convex functions: gradient correctness is tested only; eigenvalue-based flags (quadratic, quadratic constraints) are hypotheses of the theorems and tested; ML objective plumbing belongs to C09."),
     "C08": dict(
         category="proof", technique=TECH, design="DESIGN.md §4 C08",
-        text="Bit mask, typed storage pools with per-feature ranges, the sample iterators, the select / flatten / targets encoders of the identity generators (one-hot +-1 with missing -> NaN / -1), pairwise products, the column "
-             "bookkeeping and the drop / shuffle flag histories are modelled on top of the C16 tensor model. Proved: getbit/setbit, ranges tile the pools disjointly, storage refines the abstract map feature x sample -> option value "
-             "(never-set = missing), flatten = encode(select) for any sample list incl. repetitions, identity = stored, missing marked, targets and product specs, columns total and column -> feature, after ANY history of "
-             "drop/undrop/shuffle/unshuffle the view is the spec view transformed by the current flag and undrop+unshuffle restore it, the reported shuffle is the applied bijection, out-of-range sample indices are rejected and the "
-             "empty list accepted, well-formedness for every reachable dataset (18 theorems, core Lean only). Exact history differential against the real library on random schemas over all storage types, 1..16 threads; "
-             "independent python oracle recomputes every view from the stored-value formula; ASan in the thorough tier. One open known finding (gradient generator 1x1 select).",
-        note=NOTE_COMMON + "The gradient (image-kernel) generator is oracle-checked only; std::shuffle's permutation is read back and checked to be a bijection; stored values are small integers (no conversion rounding)."),
+        text="Bit mask, typed storage pools with per-feature ranges, the sample iterators, the select / flatten / targets encoders of the identity generators (one-hot +-1 with missing -> NaN / -1), pairwise products, the gradient "
+             "generator (3x3 kernel tables, gx / gy / magnitude / angle per channel, feature bookkeeping) and the elemwise / pairwise generator templates (4 + 16 input selections x 4 generated kinds), the column bookkeeping and the "
+             "drop / shuffle flag histories are modelled on top of the C16 tensor model. Proved: getbit/setbit, ranges tile the pools disjointly, storage refines the abstract map feature x sample -> option value (never-set = "
+             "missing), flatten = encode(select) for any sample list incl. repetitions, identity = stored, missing marked, targets and product specs, columns total and column -> feature, after ANY history of drop/undrop/shuffle/"
+             "unshuffle the view is the spec view transformed by the current flag and undrop+unshuffle restore it, the reported shuffle is the applied bijection, out-of-range sample indices are rejected and the empty list "
+             "accepted, well-formedness for every reachable dataset; for the gradient generator: which features are produced (none below 3x3), their descriptors, every output pixel = the kernel sum over the 3x3 neighbourhood "
+             "addressed through the C16 index, kernel normalisation / transpose symmetry, select / flatten / missing / history views, exactly when the unserved 1x1 scalar overload occurs, and over an ordered field gx, gy = "
+             "correlations, gradient of an affine image, magnitude = norm; fit / select / descriptor specs of the template generators (35 theorems). Exact history differential against the real library on random schemas over all "
+             "storage types and generator stacks, 1..16 threads, nothing model-skipped; independent python oracle recomputes every view from the stored-value formula; ASan in the thorough tier. One open known finding (gradient "
+             "generator 1x1 select).",
+        note=NOTE_COMMON + "Binary64 rounding inside the gradient kernels is outside the theorems (the correspondence is bit-exact, atan2 = the same libm call); 20 of the 80 template instantiations are run; std::shuffle's permutation "
+             "is read back and checked to be a bijection; stored values are small integers (no conversion rounding)."),
     "C10": dict(
         category="proof", technique=TECH, design="DESIGN.md §4 C10",
-        text="Moment accumulators, the sorted stump / hinge sweep with running moments and mid-point thresholds, the affine closed form (incl. the constant branch), dense and discrete-step tables, score clamping, min-reduce over "
-             "features, predict / split / scale / merge are modelled over any ordered field. Proved: the constant, affine, stump, hinge, dense-table and dstep fits attain the minimum RSS of their class (= brute force over all "
-             "features x candidate thresholds / label sets), running moments = prefix moments, the sweep is sound and complete, predicting with the fit reproduces the reported RSS, the fit is independent of the chunk -> worker "
-             "assignment, predict adds to the base and leaves missing samples untouched, predict = table[split], scale scales per group, merge preserves the summed prediction, mergeSort meets the sort contract, binary search in the "
-             "sorted hash table (20 theorems). Correspondence: fit / predict / split / scale / clone / merge of the 8 real learners on in-memory datasets (1..16 threads) vs the model at Float (1e-9, selection compared when the "
-             "runner-up margin exceeds 1e-9); python brute-force oracle.",
-        note=NOTE_COMMON + "kbest / ksplit tables and decision-tree fits are not modelled (their fitted parameters are read back and predict / split / scale / merge evaluated on them); AIC/AICc/BIC use log and are tested only."),
+        text="Moment accumulators, the sorted stump / hinge sweep with running moments and mid-point thresholds, the affine closed form (incl. the constant branch), dense, discrete-step, k-best and k-split tables (bin sorting, greedy "
+             "agglomeration), the decision-tree fit (breadth-first loop, terminal rule, child sample lists, node / table bookkeeping), score clamping, min-reduce over features, predict / split / scale / merge are modelled over any "
+             "ordered field. Proved: the constant, affine, stump, hinge, dense-table, dstep, k-best and k-split fits attain the minimum RSS of their class (= brute force over all features x candidate thresholds / label sets / "
+             "subsets), k-best is optimal per size under every criterion, the greedy k-split is NOT optimal for a fixed cluster count (kernel-checked counterexample), running moments = prefix moments, the sweep is sound and "
+             "complete, predicting with the fit reproduces the reported RSS (all learners), the fit is independent of the chunk -> worker assignment; for the tree: depth 1 = the stump, well-formedness (indices in range, acyclic, "
+             "depth <= max_depth, routing never stuck), leaves partition the routed samples, every leaf row is the mean residual of its samples, the fit never runs out of fuel; predict adds to the base and leaves missing samples "
+             "untouched, predict = table[split], scale scales per group, merge preserves the summed prediction (tables compare their hash -> table mapping), mergeSort meets the sort contract, binary search in the sorted hash table "
+             "(54 theorems). Correspondence: every fit is computed by the model in the driver and compared with fit / predict / split / scale / clone / merge of the 8 real learners on in-memory datasets (1..16 threads) at Float "
+             "(1e-9, selection compared when the runner-up margin exceeds 1e-9); independent python oracle: brute force, breadth-first re-derivation of trees, all subsets for k-best, re-implemented agglomeration for k-split.",
+        note=NOTE_COMMON + "Optimality of k-best / k-split is for the RSS criterion (per-size and consistency theorems hold for every criterion); AIC/AICc/BIC use log and are tested only; a tree whose stump choice at some node is decided by "
+             "rounding (runner-up within 1e-9) is not compared."),
     "C11": dict(
         category="proof", technique=TECH_GEN, design="DESIGN.md §4 C11",
         text="early_stopping_t::done is RE-TRANSLATED from src/gboost/early_stopping.cpp on every run; over the generated definition it is proved by induction over any history of calls that the stored round / value / snapshot are "
